@@ -56,19 +56,30 @@ def _container(items: list, kind: str):
     raise ValueError(kind)
 
 
-def rebuild(o, kind: str = "list"):
+def rebuild(o, kind: str = "list", interleave: bool = False):
     """Re-creates a model object through its *public constructor* from its own public accessors, handing the attribute
     collection over as the given kind of iterable (the signatures say Iterable[Attribute]). Returns (new object, the
     argument object that was handed over or None). Services, primitives: rebuilt from their parts."""
     if isinstance(o, pydsdl.ServiceType):
-        rq, _ = rebuild(o.request_type, kind)
-        rs, _ = rebuild(o.response_type, kind)
+        rq, _ = rebuild(o.request_type, kind, interleave)
+        rs, _ = rebuild(o.response_type, kind, interleave)
         return pydsdl.ServiceType(rq, rs, o.fixed_port_id), None
     if isinstance(o, pydsdl.DelimitedType):
-        inner, arg = rebuild(o.inner_type, kind)
+        inner, arg = rebuild(o.inner_type, kind, interleave)
         return pydsdl.DelimitedType(inner, o.extent), arg
     if isinstance(o, (pydsdl.StructureType, pydsdl.UnionType)):
-        arg = _container(list(o.attributes), kind)
+        attrs = list(o.attributes)
+        if interleave:
+            # declaration order with constants BETWEEN the fields (the constructors take the attributes in any order)
+            fs = [a for a in attrs if isinstance(a, pydsdl.Field)]
+            cs = [a for a in attrs if not isinstance(a, pydsdl.Field)]
+            attrs = []
+            while fs or cs:
+                if fs:
+                    attrs.append(fs.pop(0))
+                if cs:
+                    attrs.append(cs.pop(0))
+        arg = _container(attrs, kind)
         new = type(o)(name=o.full_name, version=o.version, attributes=arg, deprecated=o.deprecated, fixed_port_id=o.fixed_port_id,
                       source_file_path=o.source_file_path, has_parent_service=o.has_parent_service, doc=o.doc)
         return new, arg
